@@ -712,7 +712,9 @@ def linkfile_text_obligations(ctx, rep, umn, rule="R08g"):
                 problems.append(f"the result is not determined: {sorted(map(str, outs))[:3]}")
             else:
                 step, state = next(iter(outs))
-                if state != wantstate:
+                if step == "?" and isinstance(state, str):
+                    problems.append(f"the parser could not be followed on block {lines!r} ({state})")
+                elif state != wantstate:
                     got = dict(state) if state is not None else None
                     problems.append(f"block {lines!r}{' (.cap for ' + cap + ')' if cap else ''} gives {got!r}, the documented meaning is {want!r}")
                 elif step != wantstep:
